@@ -6,6 +6,7 @@ import (
 	"go/token"
 	"go/types"
 	"sort"
+	"strings"
 )
 
 type Flow struct {
@@ -432,7 +433,13 @@ func (x *Exec) forStmt(st *State, s *ast.ForStmt, label string) Flow {
 		st = x.stmt(st, s.Init, "").next
 	}
 	if ls == nil {
-		return x.unrolledFor(st, s, label, id)
+		if f, ok := x.tryUnroll(st, s, label, id); ok {
+			return f
+		}
+		// no invariant given and not unrollable: cut with the invariant `true`
+		// (everything the loop may assign is havocked; sound over-approximation)
+		ls = &LoopSpec{}
+		x.vc.abstractedLoops = append(x.vc.abstractedLoops, x.vc.fn+" loop "+id)
 	}
 	body := func(sB *State) Flow {
 		f := x.block(sB, s.Body.List)
@@ -738,6 +745,27 @@ func (x *Exec) obligeNamed(st *State, name, kind string, goal Term, pos token.Po
 	st.assume(goal)
 }
 
+// tryUnroll unrolls a loop without invariant on a copy of the state; when the
+// loop does not unroll (symbolic bound) nothing of the attempt is kept.
+func (x *Exec) tryUnroll(st *State, s *ast.ForStmt, label, id string) (f Flow, ok bool) {
+	nObl, loopN, n := len(x.vc.obls), x.loopN, x.vc.n
+	_ = n
+	trial := st.clone()
+	defer func() {
+		if r := recover(); r != nil {
+			if u, isU := r.(unsupported); isU && (strings.Contains(u.msg, "needs an invariant") || strings.Contains(u.msg, "does not unroll")) {
+				x.vc.obls = x.vc.obls[:nObl]
+				x.loopN = loopN
+				ok = false
+				return
+			}
+			panic(r)
+		}
+	}()
+	f = x.unrolledFor(trial, s, label, id)
+	return f, true
+}
+
 func (x *Exec) unrolledFor(st *State, s *ast.ForStmt, label, id string) Flow {
 	out := Flow{}
 	var exits []*State
@@ -909,13 +937,13 @@ func (x *Exec) rangeIndexed(st *State, s *ast.RangeStmt, label string, ls *LoopS
 	st.vars[idxObj] = Value{T: x.vc.idxLit(0), Ty: types.Typ[types.Int]}
 	if ls == nil {
 		// unroll when the length is constant
-		if n.C == nil {
-			x.unsup(s.Pos(), "range loop %s needs an invariant", id)
+		if n.C == nil || n.C.Int64() > 70 {
+			ls = &LoopSpec{}
+			x.vc.abstractedLoops = append(x.vc.abstractedLoops, x.vc.fn+" loop "+id)
 		}
+	}
+	if ls == nil {
 		cnt := n.C.Int64()
-		if cnt > 70 {
-			x.unsup(s.Pos(), "range loop %s too long to unroll", id)
-		}
 		out := Flow{}
 		var exits []*State
 		cur := st
@@ -985,7 +1013,8 @@ func (x *Exec) cutLoopWith(st *State, ls *LoopSpec, id, label string, nodes []as
 
 func (x *Exec) rangeMap(st *State, s *ast.RangeStmt, label string, ls *LoopSpec, id string, m *types.Map) Flow {
 	if ls == nil {
-		x.unsup(s.Pos(), "range over map (loop %s) needs an invariant", id)
+		ls = &LoopSpec{}
+		x.vc.abstractedLoops = append(x.vc.abstractedLoops, x.vc.fn+" loop "+id)
 	}
 	mv := x.expr(st, s.X)
 	rangeObj := types.NewVar(s.Pos(), x.pkg.Types, "_range"+id, x.typeOf(s.X))
